@@ -349,7 +349,13 @@ Print Assumptions C03_returns.
 (** PARTIAL: [acm_unique]; "fewer than MaxDisabledMeasurements dropped" is
     "fewer than min(len, MaxDisabledMeasurements)" in [in_reach] (finding
     C03-drop-all-not-searched).  Every outcome is a result: never (nil, nil),
-    never a panic, never a hang. *)
+    never a panic, never a hang.
+    Missing for the statement of the property: (a) [acm_unique] -- follows from
+    collision-freeness ([C03_complete_collision_free_partial]) and is needed in
+    some form ([C03_sound_colliding_hash_refuted] has (nil, nil) for a reachable
+    value); (b) the drop-everything clause for logs shorter than
+    MaxDisabledMeasurements -- false of the code ([C03_complete_dropall_refuted]);
+    for all other logs the statement is the property's ([C03_complete_long_log]). *)
 Theorem C03_complete_partial : forall D (deqb : D -> D -> bool),
   (forall a b, deqb a b = true <-> a = b) ->
   forall (pcr_init : Z -> D) (extend : D -> D -> D) (pcr0data : Z -> Z -> D) st
@@ -452,8 +458,9 @@ Theorem C03_parallelism_space : forall D (deqb : D -> D -> bool),
 Proof. exact reachable_searched_iff. Qed.
 Print Assumptions C03_parallelism_space.
 
-(** PARTIAL ([acm_unique]): a result under [cf1] excludes (nil, nil) under [cf2];
-    every outcome under [cf2] is a result *)
+(** PARTIAL ([acm_unique] under [cf2], the only missing clause; from
+    collision-freeness: [C03_parallelism_collision_free]): a result under [cf1]
+    excludes (nil, nil) under [cf2]; every outcome under [cf2] is a result *)
 Theorem C03_parallelism_partial : forall D (deqb : D -> D -> bool),
   (forall a b, deqb a b = true <-> a = b) ->
   forall (pcr_init : Z -> D) (extend : D -> D -> D) (pcr0data : Z -> Z -> D) st
@@ -466,7 +473,9 @@ Theorem C03_parallelism_partial : forall D (deqb : D -> D -> bool),
 Proof. exact parallelism. Qed.
 Print Assumptions C03_parallelism_partial.
 
-(** PARTIAL ([acm_unique]): (nil, nil) under [cf1] is (nil, nil) under [cf2] *)
+(** PARTIAL ([acm_unique] under [cf1], the only missing clause; from
+    collision-freeness: [C03_parallelism_none_collision_free]): (nil, nil) under
+    [cf1] is (nil, nil) under [cf2] *)
 Theorem C03_parallelism_none_partial : forall D (deqb : D -> D -> bool),
   (forall a b, deqb a b = true <-> a = b) ->
   forall (pcr_init : Z -> D) (extend : D -> D -> D) (pcr0data : Z -> Z -> D) st
